@@ -2,7 +2,7 @@
 """Regenerates MANIFEST.json from the table below (kept in one place so it stays valid)."""
 import json, os, subprocess
 V = os.path.dirname(os.path.abspath(__file__))
-fix_commits = [l.split()[3] for l in json.load(open(os.path.join(V, 'known_findings.json')))['fixed']]
+fix_commits = [l.split()[2] for l in json.load(open(os.path.join(V, 'known_findings.json')))['fixed']]
 CLAIMED = {
  'C13': dict(level='proof', design='DESIGN.md section 4 (C13)',
    text='Deductive proof with CBMC code contracts (goto-instrument --dfcc): every buffer-variant conversion function of the 8 units is enforced against a contract generated from the property statement, callers against callee contracts, for all 2^8..2^64 values, no loop and no unwinding bound. Proof is the right level because one wrong constant in the hand-unrolled per-decade code is invisible to sampled tests.',
